@@ -19,7 +19,7 @@ RULE = (
     "complete product image class x candidate class/mode count x candidate state x grid x intensity handling (reduced complete products for "
     "3-D and for noise images, whose fits are slow); fixed noise patterns are deterministic lattices of values, not samples; "
     "non-trivial = the optimiser was entered with a non-zero initial cost"
-    " plus the plural entry point on every case, perturbed candidates one period outside, cylindrical z ranges excluding 0, and all ordered pairs of six probe fits handed ONE optimiser-options dict"
+    " plus the plural entry point on every case, perturbed candidates one period outside, cylindrical z ranges excluding 0, and all ordered pairs of six probe fits handed ONE optimiser-options dict; vanished candidates (radius 0, empty fit region) and perturbed candidates without modes"
 )
 ASSUMPTIONS = [
     "the objective is the one handed to scipy's least_squares (0.5*sum residual^2 over the fit region chosen by the library)",
@@ -134,6 +134,14 @@ def candidates(g, tier, img):
         out.append(("SphericalDroplet", 0, None, st))
         for w in ((None, 0.0, 1.0) if not slow else (1.0,)):
             out.append(("DiffuseDroplet", 0, w, st))
+    if not slow:
+        # candidates that cover no support point (vanished droplets): nothing to fit, every clause still applies
+        out.append(("SphericalDroplet", 0, None, "vanished"))
+        out.append(("DiffuseDroplet", 0, 1.0, "vanished"))
+        if pert is not None:
+            # perturbed classes without any mode are valid candidates, too
+            out.append((pert, 0, 1.0, "truth"))
+            out.append((pert, 0, 1.0, "displaced"))
     modes = (1, 2, 4) if not slow else (2,)
     if pert is None:
         modes = ()  # no perturbed class in one dimension
@@ -239,6 +247,8 @@ def prepare(case):
             cc = [0.0, 0.0, c[2] + 0.7]
     elif state == "wrong-radius":
         cR = 0.7 * R
+    elif state == "vanished":
+        cR = 0.0
     elif state.startswith("scan"):
         _, i, j = state.split(":")
         if g.get("fine"):
@@ -260,7 +270,7 @@ def prepare(case):
         if state == "amp-on-bound":
             amps[-1] = 1.0
             amps[0] = -1.0 if modes > 1 else 1.0
-        elif state == "displaced":
+        elif state == "displaced" and modes:
             amps[0] = 0.05
         elif state == "outside-perturbed":
             amps[0] = 0.25
@@ -311,12 +321,18 @@ def run_case(case, ctx):
     except Exception as e:  # noqa
         ctx.check("C04.plural-agrees", False, {"exc": repr(e)[:300]}, tags)
     ctx.check("C04.optimiser-observed", len(calls) == 1, {"calls": len(calls)}, tags)
+    if state == "vanished":
+        ctx.count("candidate-covering-no-cell")
+    if clsname.startswith("Perturbed") and modes == 0:
+        ctx.count("perturbed-candidate-without-modes")
     if calls:
         c0, c1 = calls[0]["cost0"], calls[0]["cost1"]
         ctx.check("C04.cost", c1 <= c0 * (1 + 1e-9) + 1e-12, {"cost_start": c0, "cost_end": c1}, tags)
         # the same comparison with the plain squared deviation computed by the harness over the fitted region
         region = calls[0]["region"]
-        if region is not None and region.shape == tuple(grid.shape):
+        if region is not None and region.shape == tuple(grid.shape) and not region.any():
+            ctx.count("empty-fit-region")  # nothing to compare: both deviations are empty sums
+        elif region is not None and region.shape == tuple(grid.shape):
             start = cand0 if isinstance(cand0, dm.DiffuseDroplet) else dm.DiffuseDroplet.from_droplet(cand0)
             if start.interface_width is None:
                 start.interface_width = float(grid.typical_discretization)
@@ -400,4 +416,4 @@ def cons_idx(grid):
 
 def expected_positive(tier):
     return ["C04.plural-agrees", "C04.options-not-carried-over", "C04.cost", "C04.deviation", "C04.class", "C04.bounds", "C04.constrained", "C04.wrapped", "C04.image-unmodified", "C04.fixpoint", "non-zero-initial-cost", "fit-improved",
-            "constrained-coordinates", "candidate-outside-box"]
+            "constrained-coordinates", "candidate-outside-box", "candidate-covering-no-cell", "perturbed-candidate-without-modes"]
